@@ -1279,6 +1279,16 @@ theorem unpack_binds_named (names : List (List Char)) (hn : names ≠ []) (xs : 
   · have h' : (names.length != min (names.length + 1) xs.length) = true := by simp; omega
     rw [if_pos h', if_neg h]
 
+/-- **unpack binds every name to its element** - positional (`$1..$n`, all elements, also from a
+    one-shot iterator whose head the length probe already took) and named (sizes must agree) -/
+theorem unpack_binds (names : List (List Char)) (xs : VL) :
+    unpack names xs =
+      if names = [] then some ((xs.zipIdx 1).map fun p => (Nat.toDigits 10 p.2, p.1))
+      else if xs.length = names.length then some (names.zip xs) else none := by
+  by_cases h : names = []
+  · subst h; simp [unpack_binds_positional]
+  · simp [h, unpack_binds_named names h xs]
+
 theorem unpack_first (x : Value) (xs : VL) :
     (unpack [] (x :: xs)).bind (fun b => (b.find? fun p => p.1 == ['1']).map (·.2)) = some x := by
   simp [unpack_binds_positional, Nat.toDigits, Nat.toDigitsCore, Nat.digitChar]
